@@ -171,6 +171,10 @@ def c13f(prog, rep):
     rep.floor(R, "directive kinds with a delimiting scanner", len(scanner), 2)
 
 
+def _rv_ops_all(rv):
+    return [o for o in (rv.get("op"), rv.get("a"), rv.get("b")) if isinstance(o, dict)] + [o for o in rv.get("ops", []) if isinstance(o, dict)]
+
+
 def c13h(prog, rep):
     """C13.h — "token boundaries of string literals agree with the Delphi lexical rules": a literal is a sequence of quoted segments and
     `#` escapes in any order and number, so the scanner may call a literal complete (SingleLine) only where one of its segment scanners
@@ -190,6 +194,19 @@ def c13h(prog, rep):
         if "Stop" in arms and key.split("(")[0].startswith("consume_"):
             stops.add(arms["Stop"])
             scanners.add(key.split("(")[0])
+    if not done:
+        # the segment scanners themselves answer with the kind (`ControlFlow::Break(TextLiteralKind::SingleLine)` for "nothing of the literal
+        # follows"), and text_literal only passes it on: the decision is a scanner's by construction
+        inner = [x for x in prog.bodies.values() if x.npath.startswith(b.npath + "::consume_") and any(
+            st["k"] == "assign" and st["rv"]["k"] == "aggregate" and st["rv"].get("variant") == "SingleLine" and norm(st["rv"].get("adt", "")).endswith("TextLiteralKind")
+            for _, _, st in x.stmts())]
+        inner += [x for x in prog.bodies.values() if x.npath.startswith(b.npath + "::consume_") and any(
+            op.get("enum_variant") == "SingleLine" for _, _, st in x.stmts() if st["k"] == "assign" for op in _rv_ops_all(st["rv"]))]
+        if rep.check(bool(inner), R, "single-line-literal-ends-where-a-segment-scanner-stops",
+                     "TextLiteral(SingleLine) is built neither in text_literal behind a `Stop` answer of a segment scanner nor by a segment scanner itself",
+                     where="%s:%d" % (b.file, b.line), instance={"form": "the segment scanners return the kind", "scanners": sorted({short(x.npath) for x in inner})}):
+            return
+        return
     if not rep.check(bool(done) and bool(stops), R, "anchor:segment-loop", "text_literal no longer builds SingleLine after testing its segment scanners for `Stop` (done=%d, stop arms=%d)" % (len(done), len(stops))):
         return
     early = [d for d in sorted(done) if b.can_reach_avoiding(0, {d}, stops)]
